@@ -113,9 +113,15 @@ class Checker:
         """Expression nodes matching pattern inside scope."""
         pnode, _ = pat.parse_pat(pattern)
         out = []
+        want = ast.expr
+        if type(pnode) in (ast.Call, ast.Subscript, ast.BinOp, ast.BoolOp,
+                           ast.UnaryOp, ast.IfExp, ast.Attribute):
+            want = type(pnode)
+        elif isinstance(pnode, ast.Compare):
+            want = (ast.Compare, ast.UnaryOp)
         for root in self.scope_nodes(scope):
-            for n in ast.walk(root):
-                if not isinstance(n, ast.expr):
+            for n in self.idx.walk(root):
+                if not isinstance(n, want):
                     continue
                 if pat.match(pnode, n, self.env(n)):
                     if own_body_only and isinstance(scope, Func) and (
@@ -129,7 +135,7 @@ class Checker:
         """Calls whose callee is `<anything>.name(...)` or `name(...)`."""
         out = []
         for root in self.scope_nodes(scope):
-            for n in ast.walk(root):
+            for n in self.idx.walk(root):
                 if isinstance(n, ast.Call):
                     fn = n.func
                     if (isinstance(fn, ast.Attribute) and fn.attr == name) \
@@ -142,7 +148,7 @@ class Checker:
         """Non-call references `X.name` / `name` (callbacks, partials)."""
         out = []
         for root in self.scope_nodes(scope):
-            for n in ast.walk(root):
+            for n in self.idx.walk(root):
                 if isinstance(n, ast.Attribute) and n.attr == name or (
                         isinstance(n, ast.Name) and n.id == name
                         and isinstance(n.ctx, ast.Load)):
@@ -158,7 +164,7 @@ class Checker:
     def stores(self, scope, attr: str):
         out = []
         for root in self.scope_nodes(scope):
-            out.extend(effects.stores(root, attr))
+            out.extend(effects.stores(self.idx.walk(root), attr))
         self.sites_seen += len(out)
         return out
 
@@ -228,10 +234,20 @@ class Checker:
         fs = self.facts(node, expand=False)
         env = self.env(node)
         bad = []
+        def leaves(fact):
+            if fact[0] == 'atom':
+                yield fact
+            else:
+                for m in fact[1]:
+                    yield from leaves(m)
         for fact in fs:
-            if not any(R(a).implied_by(fact, env) and fact[0] == 'atom'
-                       for a in allowed):
-                bad.append(show_fact(fact))
+            for leaf in leaves(fact):
+                if not any(R(a).implied_by(leaf, env) for a in allowed) \
+                        and not (fact[0] != 'atom' and any(
+                            R(a).implied_by((leaf[0], leaf[1], not leaf[2]),
+                                            env) for a in allowed)):
+                    bad.append(show_fact(fact))
+                    break
         return self.ob(rule, self.key(node, f) + ' only-under ' + ', '.join(
             repr(R(a)) for a in allowed), not bad, self.where(node, f),
             (what + ' ' if what else '') + (
@@ -274,6 +290,66 @@ class Checker:
                     map(repr, missing))
             self.ob(rule, self.key(n, f), ok, self.where(n, f),
                     f'{what}: ' + ('allowed' if ok else why))
+
+    def who_calls(self, rule: str, name: str, allowed: dict,
+                  scope=None, floor: int = 1, recv=None, refs_ok=()):
+        """R-WHO-CALLS: every call `X.name(...)` lies in an allowed function
+        (dict: func fq -> list of guard reqs) and satisfies its guards.
+        Bare references (callbacks) are reported unless owner in refs_ok."""
+        sites = self.calls(scope, name)
+        if recv is not None:
+            sites = [s for s in sites if recv(s)]
+        self.floor(rule, f'calls of {name} (positive control)', len(sites),
+                   floor)
+        for s in sites:
+            f = self.owner(s)
+            fq = f.fq if f else '<module>'
+            if fq not in allowed:
+                self.ob(rule, self.key(s, f), False, self.where(s, f),
+                        f'{name}() called from {fq}, which is not in the '
+                        f'allow-list {sorted(allowed)}')
+                continue
+            reqs = allowed[fq]
+            if not reqs:
+                self.ob(rule, self.key(s, f), True, self.where(s, f),
+                        f'{name}() caller allowed')
+            else:
+                self.guard(rule, s, reqs, f)
+        for r in self.refs(scope, name):
+            f = self.owner(r)
+            fq = f.fq if f else '<module>'
+            if isinstance(r, ast.Name):
+                # a bare name: only relevant if it is imported / a function
+                continue
+            par = self.idx.parent.get(id(r))
+            if isinstance(par, ast.Attribute):
+                continue
+            if recv is not None:
+                continue
+            self.ob(rule, self.key(r, f) + f' [reference to {name}]',
+                    fq in refs_ok or fq in allowed, self.where(r, f),
+                    f'{name} passed as a value in {fq}')
+        return sites
+
+    def who_writes(self, rule: str, attr: str, allowed, scope=None,
+                   floor: int = 1, keep=None, min_depth=0):
+        """R-WHO-WRITES: stores to attribute `attr` only in allowed
+        (func fq, kind) pairs; kind '*' allows any kind in that function."""
+        sts = [s for s in self.stores(scope, attr) if s.depth >= min_depth]
+        self.floor(rule, f'stores to .{attr} (positive control)', len(sts),
+                   floor)
+        aset = set(allowed)
+        for s in sts:
+            f = self.owner(s.node)
+            fq = f.fq if f else '<module>'
+            if keep is not None and not keep(s, f):
+                continue
+            ok = (fq, s.kind) in aset or (fq, '*') in aset
+            self.ob(rule, self.key(s.node, f) + f' [{s.kind} .{attr}]', ok,
+                    self.where(s.node, f),
+                    f'{s.kind} of .{attr} in {fq}' + (
+                        '' if ok else ' — not in the writer allow-list'))
+        return sts
 
     def pre(self, rule: str, f: Func, target, test: Callable[[ast.AST], bool],
             what: str) -> bool:
